@@ -2,4 +2,4 @@ package main
 
 import "verifharness/checks/c15"
 
-func init() { registry["C15"] = entry{"exploration", c15.Run} }
+func init() { registry["C15"] = entry{"model_checking", c15.Run} }
